@@ -4,7 +4,7 @@ from fractions import Fraction
 
 PID = "C20"
 TITLE = "Union-find and the priority queue conform to their abstract models"
-LEAN_MODULES = ["Mouette.Props.C20", "Mouette.Props.C20Source", "Mouette.Props.C20Size", "Mouette.Props.C20Height"]
+LEAN_MODULES = ["Mouette.Props.C20", "Mouette.Props.C20Source", "Mouette.Props.C20Size", "Mouette.Props.C20Height", "Mouette.Props.C20Refine"]
 REQUIRED_THEOREMS = ["inv_init", "inv_step", "inv_run", "find_root", "uf_refines", "elts_eq_present", "counts", "nComps_counts_classes",
                      "queries_preserve_partition", "component_joined", "component_partition", "components_spec",
                      "component_mapping_spec", "pop_ok", "pop_none_iff", "empty_correct", "drain_perm", "drain_sorted", "trace_perm",
@@ -12,7 +12,7 @@ REQUIRED_THEOREMS = ["inv_init", "inv_step", "inv_run", "find_root", "uf_refines
                      "init_bridge", "contains_bridge", "len_bridge", "addStep_bridge", "findLoopBody_bridge", "findLoop_bridge",
                      "find_bridge", "connected_bridge", "union_bridge", "roots_bridge", "component_bridge", "srcStep_bridge",
                      "srcRun_bridge", "ctor_bridge", "ctor_is_history", "srcRunFrom_bridge",
-                     "uf_attrs_are_instance_state", "raises_bridge", "component_mapping_shape_bridge",
+                     "uf_attrs_are_instance_state", "raises_bridge",
                      "lt_is_priority_lt", "data_is_instance_state", "push_bridge", "pop_bridge", "front_bridge", "empty_bridge",
                      # the headline theorems on the extracted definitions
                      "uf_refines_source", "uf_refines_source_from", "counts_source", "union_total_source", "find_root_source",
@@ -26,7 +26,13 @@ REQUIRED_THEOREMS = ["inv_init", "inv_step", "inv_run", "find_root", "uf_refines
                      "components_bridge", "components_source", "siz_root_eq_card_source", "find_terminates_log_source",
                      "rank_witness", "rank_witness_spelled", "rank_witness_lt", "rank_witness_le", "height_le_log2_size_state",
                      "height_le_log2_size", "height_le_log2_size_lt", "find_within_log2_n_state", "find_within_log2_n",
-                     "find_is_log2_loop", "height_bound_needs_size_order"]
+                     "find_is_log2_loop", "height_bound_needs_size_order",
+                     # round 5: component_mapping() and __setitem__ translated with bridges; ONE refinement translated union-find => hand-model
+                     # API, for the properties that use the union-find (C10 Kruskal, C11/C12/C16 cutting)
+                     "cmFold_bridge", "component_mapping_bridge", "component_mapping_source", "setitem_bridge", "setitem_breaks_indx",
+                     "sizCmp_spelling", "sim_init", "sim_add", "sim_ctor", "sim_range", "sim_len", "sim_nComps", "sim_contains", "sim_find",
+                     "sim_connected", "sim_unionC", "sim_union_lt", "sim_srcUnion", "sim_applyUnions", "sim_applyUnions_lt", "sim_findAll",
+                     "sim_findFaces", "mKStep_lt", "sim_kStep", "sim_kruskalLoop", "sim_kruskalLoop_lt", "views_agree_source"]
 
 # which functions of the anchor files are translated from the working tree on every run (a Generated definition comes from the body AND
 # a bridge theorem of Props/C20Source.lean uses it), which are only modelled by hand, which are out of the statement's scope
@@ -42,9 +48,8 @@ SOURCE_MAP = {
     "mouette/utils/unionfind.py::UnionFind.component": "translated",         # C20.component: component_bridge
     "mouette/utils/unionfind.py::UnionFind.roots": "translated",             # C20.roots: roots_bridge
     "mouette/utils/unionfind.py::UnionFind.components": "translated",        # C20.componentsFor1Step/components: components_bridge, components_source
-    "mouette/utils/unionfind.py::UnionFind.component_mapping": "modelled",   # statement shape extracted (component_mapping_shape_bridge); meaning = hand model + oracle
-    "mouette/utils/unionfind.py::UnionFind.__setitem__": "out-of-scope: overwrites a stored element without updating _indx; not one of the add/union/find "
-                                                         "histories the statement quantifies over (never called by the library or the harness)",
+    "mouette/utils/unionfind.py::UnionFind.component_mapping": "translated",  # C20.componentMappingFor1Step/componentMapping: component_mapping_bridge, component_mapping_source
+    "mouette/utils/unionfind.py::UnionFind.__setitem__": "translated",       # C20.setitem: setitem_bridge; setitem_breaks_indx proves why it is not an operation of the histories
     "mouette/utils/unionfind.py::UnionFind.__repr__": "out-of-scope: debug string of the private arrays, no clause of the statement is about it",
     "mouette/utils/priority_queue.py::PriorityItem.__lt__": "translated",    # C20PQ.itemLt: lt_is_priority_lt
     "mouette/utils/priority_queue.py::PriorityQueue.__init__": "translated",  # C20PQ.dataHome/initData: data_is_instance_state
@@ -60,7 +65,7 @@ TRUSTED = [
     "C20PQ.lean denote the Python statements it read (vocabulary: Model/UFSource.lean - dict as association list, out-of-range list reads "
     "totalised, `raise` = none, `set(..)` = duplicate-free list in first-occurrence order, `while` = recursion on fuel len(_par), proved "
     "sufficient - and log2(n) proved sufficient; local dict/bucket reads raise = none, proved never to happen); "
-    "component_mapping() is tied by its normalised statement shape only (its meaning is the hand model's, checked by the oracle)",
+    "local dicts of sets are insertion-ordered association lists, the iteration order inside a Python set is not modelled)",
     "elements are mapped to integer ids by the harness (hash/eq of Python hashables trusted); priorities are floats without NaN",
     "heapq: CPython's heappush/heappop implement the algorithm of Lib/heapq.py (append + _siftdown; pop last, replace root, bottom-up _siftup) "
     "- modelled in Model/BinHeap.lean; the heap contract (heap invariant w.r.t. __lt__ kept, multiset kept, pop returns heap[0] <= every item) "
@@ -616,12 +621,15 @@ MANIFEST = {
                    "ARBITRARY comparison (so `<` and `<=` are both covered by the same bridge); components() and __getitem__ are translated "
                    "as the folds they are and proved to return the model's listing without raising (components_bridge, components_source); "
                    "union by size => a rank witness with 2^rank <= size exists after every history, hence the while loop of find exits "
-                   "within log2(n) iterations (height_le_log2_size, find_terminates_log_source). The tie with the running code is additionally sampled by a history correspondence (observed after every "
+                   "within log2(n) iterations (height_le_log2_size, find_terminates_log_source). Round 5: component_mapping() (both loops, the dict of "
+                   "sets) and __setitem__ are translated and bridged (component_mapping_bridge, component_mapping_source), so every method of "
+                   "both anchor files except __repr__ is read from the working tree; Props/C20Refine.lean proves once that the translated "
+                   "union-find simulates the hand-model API (init/add/find/connected/union and the Kruskal / cutting folds built on it). The tie with the running code is additionally sampled by a history correspondence (observed after every "
                    "operation, pop order on ties included) and a direct oracle, which also produce the failing input when a bridge breaks."),
     "level_note": ("Trusted: Lean kernel + propext/Classical.choice/Quot.sound; the ast->Lean translator and its vocabulary "
                    "(Model/UFSource.lean); Python hash/eq of the elements; 'CPython's heapq implements the algorithm of Lib/heapq.py' "
                    "(its contract is proved for the model, its pop order is compared on every history); Python's attribute lookup rule "
-                   "(instance vs class body); component_mapping() is tied by statement shape + oracle only."),
+                   "(instance vs class body)."),
     "technique": ("Lean 4 refinement proof (invariant + equivalence-closure spec) over an executable model; source methods translated by "
                   "Python ast into Lean definitions each run and proved equal to the model by bridge theorems (kernel-checked, lake build); "
                   "proved binary-heap contract; differential history correspondence + oracle for the failing-input search"),
